@@ -10,7 +10,7 @@ include!(concat!(env!("VERIF_HARNESS"), "/common/waker.rs"));
 use vwaker::{mk as mk_waker, wakes};
 
 const ITEM_MAX: usize = 35_000; // straddles MAX_BUFFER_SIZE = 32768 with one or two items
-static POOL: [u8; ITEM_MAX * 4] = [0; ITEM_MAX * 4];
+static POOL: [u8; ITEM_MAX * 5] = [0; ITEM_MAX * 5];
 
 const READER: usize = 0; // waker ids
 const FEEDER: usize = 1;
@@ -554,6 +554,12 @@ fn c07_feed_data_n2() {
 fn c07_feed_data_n3_t() {
     feed_data_lemma::<3>();
 }
+// 4 queued items: the VecDeque's first growth (capacity 4 -> 8) happens on the next push
+#[kani::proof]
+#[kani::unwind(7)]
+fn c07_feed_data_n4_t() {
+    feed_data_lemma::<4>();
+}
 #[kani::proof]
 #[kani::unwind(3)]
 fn c07_poll_next_n0() {
@@ -573,6 +579,12 @@ fn c07_poll_next_n2() {
 #[kani::unwind(6)]
 fn c07_poll_next_n3_t() {
     poll_next_lemma::<3>();
+}
+// 4 queued items: the VecDeque's first growth (capacity 4 -> 8) happens on the next push
+#[kani::proof]
+#[kani::unwind(7)]
+fn c07_poll_next_n4_t() {
+    poll_next_lemma::<4>();
 }
 #[kani::proof]
 #[kani::unwind(3)]
@@ -594,6 +606,12 @@ fn c07_ending_n2() {
 fn c07_ending_n3_t() {
     ending_lemma::<3>();
 }
+// 4 queued items: the VecDeque's first growth (capacity 4 -> 8) happens on the next push
+#[kani::proof]
+#[kani::unwind(7)]
+fn c07_ending_n4_t() {
+    ending_lemma::<4>();
+}
 #[kani::proof]
 #[kani::unwind(3)]
 fn c07_unread_n0() {
@@ -613,6 +631,12 @@ fn c07_unread_n2() {
 #[kani::unwind(6)]
 fn c07_unread_n3_t() {
     unread_lemma::<3>();
+}
+// 4 queued items: the VecDeque's first growth (capacity 4 -> 8) happens on the next push
+#[kani::proof]
+#[kani::unwind(7)]
+fn c07_unread_n4_t() {
+    unread_lemma::<4>();
 }
 
 #[cfg(test)]
